@@ -27,7 +27,7 @@ for id in "$@"; do
   [ -n "$bad" ] && { say "FAIL suite: $bad"; continue; }
   # demo
   if [ -f $out/demo/cmd.sh ]; then cmds=$(cat $out/demo/cmd.sh); else
-  cmds=$(sed -e ':a' -e '/\\$/N; s/\\\n//; ta' $out/demo/RUN.md | awk '/^    [^ ]/{print substr($0,5)}' | grep -v '^git ' ); fi
+  cmds=$(sed -e ':a' -e '/\\$/N; s/\\\n//; ta' $out/demo/RUN.md | awk '/^    [^ ]/{print substr($0,5)}' | grep -v 'git apply\|git stash\|git diff\|git checkout' ); fi
   say "demo commands: $(echo "$cmds" | tr '\n' ';')"
   ( set -e; eval "$cmds" ) > $wt.demo_with.log 2>&1; rc_with=$?
   git apply -R $out/patch.diff
